@@ -498,6 +498,13 @@ func init() {
 	reg("(*internal/godebug.Setting).IncNonDefault", func(fr *frame, args []value) value { return nil })
 	reg("(*internal/godebug.Setting).Name", func(fr *frame, args []value) value { return "" })
 
+	// gjson's header-punning conversions (read-only uses)
+	reg("github.com/tidwall/gjson.stringBytes", func(fr *frame, args []value) value { return strBytes(args[0]) })
+	reg("github.com/tidwall/gjson.bytesString", func(fr *frame, args []value) value { return mkStr(args[0].([]value)) })
+
+	// Result.Index (an offset computed from two string headers) is not read by coraza: left 0
+	reg("github.com/tidwall/gjson.fillIndex", func(fr *frame, args []value) value { return nil })
+
 	// go:linkname pull
 	reg("mime/multipart.readMIMEHeader", func(fr *frame, args []value) value {
 		return fr.i.callByName(fr, "net/textproto.readMIMEHeader", args)
